@@ -308,84 +308,89 @@ def hasBit (mask bit : Nat) : Bool := (mask / bit) % 2 == 1
 def maskAll : Nat := 1023
 def maskDefault : Nat := 1 + 2 + 4 + 8 + 512
 
+/-- accumulator threaded through the branches of `harvestByType`: state, the harvest being rebuilt, requests so far -/
+structure HAcc where
+  s : PState
+  h : HarvestM
+  reqs : List Req := []
+
+/-- one guarded branch of `harvestByType`: the saved containers `pl` are handed to the sender, `upd` installs the fresh one -/
+def evStep (acc : HAcc) (a : HArgs) (on : Bool) (pl : List (Cat × Payload)) (upd : HarvestM → HarvestM) : HAcc :=
+  if on then
+    let (s, r) := considerMany acc.s a pl
+    { s := s, h := upd acc.h, reqs := acc.reqs ++ r }
+  else acc
+
+/-- `harvestAll` (the `ht&HarvestAll == HarvestAll` branch): the whole Harvest is replaced, everything is sent -/
+def harvestAllPart (s : PState) (runId : String) (run : RunM) (app : AppM) (cfg : RunCfg) (a : HArgs) : PState × List Req :=
+  let h := run.h
+  let (seen', newPk) := match h.pkgs with
+    | none => (app.seenPkgs, ([] : List Pkg))
+    | some l => filterPkgs app.seenPkgs l
+  let s := setApp s run.app { app with seenPkgs := seen' }
+  let s := setRun s runId { run with h := HarvestM.new cfg }
+  let gid := s.nextGroup
+  let a := { a with group := gid }
+  let hf := createFinalMetrics h
+  let mt := applyRulesM hf.metrics a.rules
+  let (s, reqs) := considerMany s a
+    ([(.metrics, .metrics mt hf.touched), (.customEv, .events h.custom), (.errorEv, .events h.errEv),
+      (.errors, .errors h.errors), (.slowSql, .slow h.slow), (.traces, .traces h.trSyn h.trForce h.trReg)] ++
+     txnPayloads a.split h.txn ++
+     [(.spanEv, .events h.span), (.logEv, .events h.log), (.packages, .pkgs newPk)])
+  let g : DuGroup := { id := gid, run := a.run, outstanding := reqs.length, license := a.license,
+                       collector := a.collector, hdr := a.hdr, lang := a.lang, rules := a.rules }
+  ({ s with nextGroup := gid + 1, groups := s.groups ++ [g] }, reqs)
+
+/-- the end of the by-type branches: application and run are written back, the data-usage group is opened -/
+def finishTypes (acc : HAcc) (runId : String) (run : RunM) (app' : AppM) (gid : Nat) (a : HArgs) : PState × List Req :=
+  let s := setApp acc.s run.app app'
+  let s := setRun s runId { run with h := acc.h }
+  if gid != 0 then
+    let g : DuGroup := { id := gid, run := a.run, outstanding := acc.reqs.length, license := a.license,
+                         collector := a.collector, hdr := a.hdr, lang := a.lang, rules := a.rules }
+    ({ s with nextGroup := gid + 1, groups := s.groups ++ [g] }, acc.reqs)
+  else (s, acc.reqs)
+
+/-- the by-type branches of `harvestByType` -/
+def harvestTypesPart (s : PState) (runId : String) (run : RunM) (app : AppM) (cfg : RunCfg) (mask : Nat)
+    (a : HArgs) : PState × List Req :=
+  let h := run.h
+  let skipDu := h.empty
+  let isDefault := hasBit mask 1 && hasBit mask 2 && hasBit mask 4 && hasBit mask 8 && hasBit mask 512
+  let gid := if isDefault && !skipDu then s.nextGroup else 0
+  let a := { a with group := gid }
+  -- default data
+  let hf := createFinalMetrics h
+  let mt := applyRulesM hf.metrics a.rules
+  let (seen', newPk) := match h.pkgs with
+    | none => (app.seenPkgs, ([] : List Pkg))
+    | some l => filterPkgs app.seenPkgs l
+  let app' := if isDefault then { app with seenPkgs := seen' } else app
+  let acc : HAcc := { s := s, h := h }
+  let acc := evStep acc a isDefault
+    [(.metrics, .metrics mt hf.touched), (.errors, .errors h.errors), (.slowSql, .slow h.slow),
+     (.traces, .traces h.trSyn h.trForce h.trReg), (.packages, .pkgs newPk)]
+    (fun h => { h with metrics := MTable.new MaxMetrics, touched := false, errors := #[], slow := [],
+                       trReg := #[], trForce := #[], trSyn := #[], pkgs := none, commands := 0, pids := [] })
+  let acc := evStep acc a (hasBit mask 32 && cfg.limCustom != 0) [(.customEv, .events acc.h.custom)]
+    (fun h => { h with custom := Res.new cfg.limCustom })
+  let acc := evStep acc a (hasBit mask 64 && cfg.limErr != 0) [(.errorEv, .events acc.h.errEv)]
+    (fun h => { h with errEv := Res.new cfg.limErr })
+  let acc := evStep acc a (hasBit mask 16 && cfg.limTxn != 0) (txnPayloads a.split acc.h.txn)
+    (fun h => { h with txn := Res.new cfg.limTxn })
+  let acc := evStep acc a (hasBit mask 128 && cfg.limSpan != 0) [(.spanEv, .events acc.h.span)]
+    (fun h => { h with span := Res.new cfg.limSpan })
+  let acc := evStep acc a (hasBit mask 256 && cfg.limLog != 0) [(.logEv, .events acc.h.log)]
+    (fun h => { h with log := Res.new cfg.limLog })
+  finishTypes acc runId run app' gid a
+
 /-- `harvestByType` (+ `harvestAll`).  Returns the new state (fresh containers installed, detached ones in
     flight) and the requests emitted, in program order. -/
 def harvestByType (s : PState) (runId : String) (run : RunM) (app : AppM) (cfg : RunCfg) (mask : Nat)
     (a : HArgs) : PState × List Req :=
-  let h := run.h
-  if mask % 1024 == maskAll then
-    -- harvestAll: the whole Harvest is replaced, everything is sent
-    let (seen', newPk) := match h.pkgs with
-      | none => (app.seenPkgs, ([] : List Pkg))
-      | some l => filterPkgs app.seenPkgs l
-    let s := setApp s app.cfg.handle { app with seenPkgs := seen' }
-    let s := setRun s runId { run with h := HarvestM.new cfg }
-    let gid := s.nextGroup
-    let a := { a with group := gid }
-    let hf := createFinalMetrics h
-    let mt := applyRulesM hf.metrics a.rules
-    let (s, reqs) := considerMany s a
-      ([(.metrics, .metrics mt hf.touched), (.customEv, .events h.custom), (.errorEv, .events h.errEv),
-        (.errors, .errors h.errors), (.slowSql, .slow h.slow), (.traces, .traces h.trSyn h.trForce h.trReg)] ++
-       txnPayloads a.split h.txn ++
-       [(.spanEv, .events h.span), (.logEv, .events h.log), (.packages, .pkgs newPk)])
-    let g : DuGroup := { id := gid, run := a.run, outstanding := reqs.length, license := a.license,
-                         collector := a.collector, hdr := a.hdr, lang := a.lang, rules := a.rules }
-    ({ s with nextGroup := gid + 1, groups := s.groups ++ [g] }, reqs)
-  else
-    let skipDu := h.empty
-    let isDefault := hasBit mask 1 && hasBit mask 2 && hasBit mask 4 && hasBit mask 8 && hasBit mask 512
-    let gid := if isDefault && !skipDu then s.nextGroup else 0
-    let a := { a with group := gid }
-    -- default data
-    let (s, h, app, reqs1) :=
-      if isDefault then
-        let hf := createFinalMetrics h
-        let mt := applyRulesM hf.metrics a.rules
-        let (seen', newPk) := match h.pkgs with
-          | none => (app.seenPkgs, ([] : List Pkg))
-          | some l => filterPkgs app.seenPkgs l
-        let app' := { app with seenPkgs := seen' }
-        let h' := { h with metrics := MTable.new MaxMetrics, touched := false, errors := #[], slow := [],
-                           trReg := #[], trForce := #[], trSyn := #[], pkgs := none, commands := 0, pids := [] }
-        let (s, reqs) := considerMany s a
-          [(.metrics, .metrics mt hf.touched), (.errors, .errors h.errors), (.slowSql, .slow h.slow),
-           (.traces, .traces h.trSyn h.trForce h.trReg), (.packages, .pkgs newPk)]
-        (s, h', app', reqs)
-      else (s, h, app, [])
-    let (s, h, reqs2) :=
-      if hasBit mask 32 && cfg.limCustom != 0 then
-        let (s, r) := consider s a .customEv (.events h.custom)
-        (s, { h with custom := Res.new cfg.limCustom }, r)
-      else (s, h, [])
-    let (s, h, reqs3) :=
-      if hasBit mask 64 && cfg.limErr != 0 then
-        let (s, r) := consider s a .errorEv (.events h.errEv)
-        (s, { h with errEv := Res.new cfg.limErr }, r)
-      else (s, h, [])
-    let (s, h, reqs4) :=
-      if hasBit mask 16 && cfg.limTxn != 0 then
-        let (s, r) := considerMany s a (txnPayloads a.split h.txn)
-        (s, { h with txn := Res.new cfg.limTxn }, r)
-      else (s, h, [])
-    let (s, h, reqs5) :=
-      if hasBit mask 128 && cfg.limSpan != 0 then
-        let (s, r) := consider s a .spanEv (.events h.span)
-        (s, { h with span := Res.new cfg.limSpan }, r)
-      else (s, h, [])
-    let (s, h, reqs6) :=
-      if hasBit mask 256 && cfg.limLog != 0 then
-        let (s, r) := consider s a .logEv (.events h.log)
-        (s, { h with log := Res.new cfg.limLog }, r)
-      else (s, h, [])
-    let reqs := reqs1 ++ reqs2 ++ reqs3 ++ reqs4 ++ reqs5 ++ reqs6
-    let s := setApp s app.cfg.handle app
-    let s := setRun s runId { run with h := h }
-    if gid != 0 then
-      let g : DuGroup := { id := gid, run := a.run, outstanding := reqs.length, license := a.license,
-                           collector := a.collector, hdr := a.hdr, lang := a.lang, rules := a.rules }
-      ({ s with nextGroup := gid + 1, groups := s.groups ++ [g] }, reqs)
-    else (s, reqs)
+  if mask % 1024 == maskAll then harvestAllPart s runId run app cfg a
+  else harvestTypesPart s runId run app cfg mask a
 
 /-- when a data-usage group has no outstanding request left, `harvestDataUsage` drains the shared queue and, if
     it was not empty, sends one more `metric_data` request with the harvest's own parameters -/
@@ -538,28 +543,29 @@ def failedHarvest (h : HarvestM) (p : Payload) (cat : Cat) : HarvestM :=
   | .logEv, .events r => { h with log := h.log.mergeFailed FailedEventsAttemptsLimit r }
   | _, _ => h     -- errors, traces, slow SQLs, packages: FailedHarvest is a no-op
 
+/-- `processHarvestError`: what a failed harvest request means for its run and its application -/
+def harvestVerdict (s : PState) (r : Req) (o : Outcome) : PState × List Req :=
+  match getRun s r.run with
+  | none => (s, [])
+  | some run =>
+    let c := o.code
+    let run' := if Gen.Status.shouldSaveHarvestData c then { run with h := failedHarvest run.h r.payload r.cat } else run
+    let s := setRun s r.run run'
+    match getApp s run.app with
+    | none => (s, [])
+    | some app =>
+      if Gen.Status.isDisconnect c false || app.state == .disconnected then
+        (shutdownRun (setApp s run.app { app with state := .disconnected }) r.run, [])
+      else if Gen.Status.isRestartException c || app.state == .restart then
+        let s := shutdownRun (setApp s run.app { app with state := .unknown }) r.run
+        considerConnect s run.app
+      else (s, [])
+
 /-- a reply to a harvest request: data-usage bookkeeping, then `processHarvestError` when it failed -/
 def harvestReply (s : PState) (r : Req) (o : Outcome) : PState × List Req :=
   let s := { s with inflight := s.inflight.filter (·.id != r.id), duQueue := min 25 (s.duQueue + 1) }
   let s := { s with groups := s.groups.map (fun g => if g.id == r.group then { g with outstanding := g.outstanding - 1 } else g) }
-  let (s, reqsC) :=
-    if o == .ok then (s, [])
-    else
-      match getRun s r.run with
-      | none => (s, [])
-      | some run =>
-        let c := o.code
-        let run' := if Gen.Status.shouldSaveHarvestData c then { run with h := failedHarvest run.h r.payload r.cat } else run
-        let s := setRun s r.run run'
-        match getApp s run.app with
-        | none => (s, [])
-        | some app =>
-          if Gen.Status.isDisconnect c false || app.state == .disconnected then
-            (shutdownRun (setApp s run.app { app with state := .disconnected }) r.run, [])
-          else if Gen.Status.isRestartException c || app.state == .restart then
-            let s := shutdownRun (setApp s run.app { app with state := .unknown }) r.run
-            considerConnect s run.app
-          else (s, [])
+  let (s, reqsC) := if o == .ok then (s, []) else harvestVerdict s r o
   let (s, more) := if r.group != 0 then settleGroup s r.group else (s, [])
   (s, reqsC ++ more)
 
